@@ -364,9 +364,11 @@ def _r5(ctx, f):
     cfg_idx = [i for i, fd in enumerate(bank_adt["variants"][0]["fields"]) if fd["name"] == "config"][0]
     cfg_adt = prog.adts[BANKCFG]
     fidx = {fd["name"]: i for i, fd in enumerate(cfg_adt["variants"][0]["fields"])}
-    reqs = it.variants("state::marginfi_account::RequirementType")
+    # Equity (bankruptcy assessment) cells are charged to C07.R2, not to C14, whose statement speaks of new borrowing
+    # (Initial) and liquidation (Maintenance) only.
+    reqs = [r for r in it.variants("state::marginfi_account::RequirementType") if r != "Equity"]
     table = {}
-    ctx.floor("C14.R5", 12)
+    ctx.floor("C14.R5", 8)
     for st in STATES:
         for rq in reqs:
             cfg = fde.Adt(BANKCFG, 0, {fidx["operational_state"]: fde.Cell(it.enum_value("BankOperationalState", st)),
